@@ -3758,7 +3758,9 @@ func (a *Association) handleForwardTSN(chunkTSN *chunkForwardTSN) []*packet {
 
 	a.log.Tracef("[%s] should send ack? newCumTSN=%d peerLastTSN=%d",
 		a.name, chunkTSN.newCumulativeTSN, a.peerLastTSN())
-	if sna32LTE(chunkTSN.newCumulativeTSN, a.peerLastTSN()) {
+	// (a value exactly half the number space away is neither ahead nor behind: it
+	// would not move the cumulative TSN, so its stream entries must not be applied either)
+	if !sna32GT(chunkTSN.newCumulativeTSN, a.peerLastTSN()) || chunkTSN.newCumulativeTSN-a.peerLastTSN() == 1<<31 {
 		a.log.Tracef("[%s] sending ack on Forward TSN", a.name)
 		a.ackState = ackStateImmediate
 		a.ackTimer.stop()
@@ -3829,7 +3831,7 @@ func (a *Association) handleIForwardTSN(chunkTSN *chunkIForwardTSN) []*packet {
 
 	a.log.Tracef("[%s] should send ack? newCumTSN=%d peerLastTSN=%d",
 		a.name, chunkTSN.newCumulativeTSN, a.peerLastTSN())
-	if sna32LTE(chunkTSN.newCumulativeTSN, a.peerLastTSN()) {
+	if !sna32GT(chunkTSN.newCumulativeTSN, a.peerLastTSN()) || chunkTSN.newCumulativeTSN-a.peerLastTSN() == 1<<31 {
 		a.log.Tracef("[%s] sending ack on I-Forward TSN", a.name)
 		a.ackState = ackStateImmediate
 		a.ackTimer.stop()
@@ -3897,7 +3899,9 @@ func (a *Association) handleReconfigParam(raw param) (*packet, error) {
 	switch par := raw.(type) {
 	case *paramOutgoingResetRequest:
 		a.log.Tracef("[%s] handleReconfigParam (OutgoingResetRequest)", a.name)
-		if sna32LT(a.peerLastTSN(), par.senderLastTSN) && len(a.reconfigRequests) >= maxReconfigRequests {
+		// (a request that cannot be performed yet - its last TSN is not at or behind the
+		// cumulative TSN, which includes the value exactly half the number space away - is kept)
+		if !sna32LTE(par.senderLastTSN, a.peerLastTSN()) && len(a.reconfigRequests) >= maxReconfigRequests {
 			// We have too many reconfig requests outstanding. Drop the request and let
 			// the peer retransmit. A well behaved peer should only have 1 outstanding
 			// reconfig request.
